@@ -135,3 +135,29 @@ V('c11-twin-stores-body-ifelse', ['C11'], 'upload.py', """        if operation_n
             return True""", """        if operation_name != 'put_object':
             return True
         return False""", kind='twin')
+V('c11-countdown-read-overshoots', ['C11', 'C01'], 'upload.py', """        if len(self._initial_data) == 0:
+            return fileobj.read(amount)
+""", """        if len(self._initial_data) == 0:
+            chunks = []
+            remaining = amount
+            while remaining > 0:
+                chunk = fileobj.read(amount)
+                if not chunk:
+                    break
+                chunks.append(chunk)
+                remaining -= len(chunk)
+            return b''.join(chunks)
+""", ['C11.f'])
+V('c11-twin-countdown-read-remaining', ['C11', 'C01'], 'upload.py', """        if len(self._initial_data) == 0:
+            return fileobj.read(amount)
+""", """        if len(self._initial_data) == 0:
+            chunks = []
+            remaining = amount
+            while remaining > 0:
+                chunk = fileobj.read(remaining)
+                if not chunk:
+                    break
+                chunks.append(chunk)
+                remaining -= len(chunk)
+            return b''.join(chunks)
+""", [], kind='twin', why='a count-down loop that asks for what remains is a correct way to tolerate short reads')
